@@ -27,7 +27,14 @@ View == /\ IsEv("view") /\ E.phase = "iter" /\ E.exc = ""
            /\ \A k \in 1..Len(E.oob) : E.oob[k][2] = "IndexOutOfBoundsError"     \* positions outside the view are refused (C12)
            /\ \A k \in 1..Len(E.mems) :                          \* mem(view, x) holds exactly for the items the view yields
                  E.mems[k][2] = (IF \E p \in 1..Len(want) : want[p] = E.mems[k][1] THEN 1 ELSE 0)
-Next == Plain \/ View
+(* slices of a Range of N items, N beyond 2^31 (items logged relative to N; N itself in two parts): the last four, the last three
+   addressed from the end, a stop beyond the end, every second of the last five, and the reversed view (length N, first item N - 1) *)
+LongWant(k) == CASE k = "tail4" -> <<-4, -3, -2, -1>> [] k = "neg3" -> <<-3, -2, -1>> [] k = "clamp" -> <<-2, -1>> [] k = "step2" -> <<-5, -3, -1>> [] OTHER -> <<-1>>
+LongView == /\ IsEv("longview") /\ E.exc = ""
+            /\ E.fwd = LongWant(E.kind)
+            /\ IF E.kind = "rev" THEN E.lenhi = E.a /\ E.lenlo = E.b
+               ELSE E.bwd = Reverse(LongWant(E.kind)) /\ E.lenhi = 0 /\ E.lenlo = Len(LongWant(E.kind))
+Next == Plain \/ View \/ LongView
 Spec == Init /\ [][Next]_l
 Accepted == LET d == TLCGet("stats").diameter IN
             /\ PrintT(<<"TRACE_MATCHED", d - 1, Len(T)>>)
